@@ -342,6 +342,11 @@ class CallMixin:
                 r = (vmin2 if which == 'min' else vmax2)(r, x)
             return r
         self.oblige('nonempty', compare('>', q.length, 0), st, node, '%s() of an empty sequence' % which)
+        if q.win is not None and q.kind == 'val':
+            # A3: max / min / np.max / np.min of a window = left fold keeping the first extremum
+            from specs.bounds import WinMaxf, WinMinf
+            self.notes.add('assumed library contract: %s of a window is its left fold (WinMax/WinMin)' % which)
+            return (WinMinf if which == 'min' else WinMaxf)(q.win[0], q.win[1], q.win[2])
         if q.kind not in ('val', 'int'):
             raise Unsupported('%s of sequence of %s' % (which, q.kind))
         es = kind_sort(q.kind)
